@@ -155,6 +155,7 @@ class Interp:
         self._table_cache = {}
         self.integrals = {}
         self.n_objects = 0
+        self.default_cache = {}
         self._is_gen = {}
         self.module_globals = {}      # (module, node id) -> shared mutable module-level container
         self.sym_strings = {}         # placeholder python str -> (width, cls): symbolic text values
@@ -258,7 +259,10 @@ class Interp:
         for n_ in names:
             if n_ not in env:
                 if n_ in defaults:
-                    env[n_] = Frame(self, module, {}, owner, None).ev(defaults[n_])
+                    dk = (id(fn), n_)
+                    if dk not in self.default_cache:
+                        self.default_cache[dk] = Frame(self, module, {}, owner, None).ev(defaults[n_])
+                    env[n_] = self.default_cache[dk]     # evaluated once, shared by every call (Python semantics)
                 else:
                     raise _RaisedExc(Raised('TypeError', fn))
         return env
@@ -342,6 +346,21 @@ class Interp:
             return SegStr.lit('None')
         if isinstance(v, bool):
             return SegStr.lit(str(v))
+        if isinstance(v, Obj) and 'Number' in v.isa:
+            return SegStr.field(v.name, None, 'num')
+        if isinstance(v, ListV) and not spec:
+            # str(list): elements separated by ', ' inside brackets (numbers print as themselves)
+            out = SegStr.lit('[')
+            for i, x in enumerate(v.items):
+                if i:
+                    out = out + ', '
+                if isinstance(x, str) and x not in self.sym_strings:
+                    out = out + repr(x)
+                elif isinstance(x, (str, SegStr)):
+                    out = out + "'" + self.seg(x) + "'"
+                else:
+                    out = out + self.seg(x)
+            return out + ']'
         raise Unsupported('cannot print %r' % (v,))
 
     def plain(self, v):
@@ -415,6 +434,14 @@ class Interp:
         raise Unsupported('not a number: %r' % (v,))
 
     def binop(self, op, a, b):
+        if op == '|' and isinstance(a, ListV) and isinstance(b, ListV) and getattr(a, 'is_set', False):
+            r_ = ListV(list(a.items))
+            for x in b.items:
+                px = self.plain(x)
+                if not any(self.plain(y) == px for y in r_.items):
+                    r_.items.append(x)
+            r_.is_set = True
+            return r_
         if isinstance(a, ListV) or isinstance(b, ListV):
             if isinstance(a, ListV) and isinstance(b, ListV):
                 if op == '+' and not getattr(a, 'is_array', False) and not getattr(b, 'is_array', False):
@@ -610,6 +637,9 @@ class Interp:
                 raise Unsupported('membership test on %r' % (b,))
             if isinstance(a, str) or a is None:
                 res = any(isinstance(x, str) and x == a for x in items)
+                return res if op == 'in' else not res
+            if isinstance(a, Obj):
+                res = any(x is a for x in items)       # identity (object equality is not modelled)
                 return res if op == 'in' else not res
             raise Unsupported('membership test of symbolic value')
         if isinstance(a, (int, Fr)):
@@ -1496,11 +1526,11 @@ def _load(t):
     return t2
 
 
-_OPS = {ast.Add: '+', ast.Sub: '-', ast.Mult: '*', ast.Div: '/', ast.Pow: '**', ast.Mod: '%'}
+_OPS = {ast.Add: '+', ast.Sub: '-', ast.Mult: '*', ast.Div: '/', ast.Pow: '**', ast.Mod: '%', ast.BitOr: '|'}
 _CMP = {ast.Eq: '==', ast.NotEq: '!=', ast.Lt: '<', ast.LtE: '<=', ast.Gt: '>', ast.GtE: '>=',
         ast.Is: 'is', ast.IsNot: 'is not', ast.In: 'in', ast.NotIn: 'not in'}
 
-PY_BUILTINS = {'iter', 'open', 'round', 'sorted', 'set', 'getattr', 'hasattr', 'float', 'int', 'len', 'min', 'max', 'enumerate', 'zip', 'range', 'type',
+PY_BUILTINS = {'locals', 'iter', 'open', 'round', 'sorted', 'set', 'getattr', 'hasattr', 'float', 'int', 'len', 'min', 'max', 'enumerate', 'zip', 'range', 'type',
                'isinstance', 'all', 'any', 'list', 'tuple', 'abs', 'sum', 'str', 'print',
                'sorted', 'dict', 'bool'}
 
@@ -1531,6 +1561,8 @@ def builtin_call(I, fr, name, args, kwargs, n):
             return C(token_num(args[0].strip()).v)
         except Unsupported:
             raise _RaisedExc(Raised('ValueError', n))
+    if name == 'locals':
+        return DictV({k: v for k, v in fr.env.items() if isinstance(k, str)})
     if name == 'round':
         v = args[0]
         if isinstance(v, Rat) and (v.is_const() or v.iszero()) and len(args) == 1:
@@ -1661,6 +1693,8 @@ def builtin_call(I, fr, name, args, kwargs, n):
                 res = res or (isinstance(v, ListV) and not getattr(v, 'is_array', False))
             elif tn in ('float', 'int'):
                 res = res or isinstance(v, Rat)
+            elif tn == 'Number':
+                res = res or isinstance(v, Rat) or (isinstance(v, Obj) and 'Number' in v.isa)
             elif tn == 'bool':
                 res = res or isinstance(v, bool)
             elif tn in ('set', 'frozenset', 'bytes', 'complex'):
@@ -1693,11 +1727,22 @@ def builtin_call(I, fr, name, args, kwargs, n):
         raise Unsupported('%s() of %r' % (name, v), n)
     if name == 'set':
         v = args[0] if args else ListV([])
-        if isinstance(v, ListV) and all(isinstance(x, str) for x in v.items):
-            r_ = ListV(list(dict.fromkeys(v.items)))
+        if isinstance(v, ListV) and all(isinstance(I.plain(x), str) for x in v.items):
+            r_ = ListV(list(dict.fromkeys(I.plain(x) for x in v.items)))
             r_.is_set = True
             return r_
         raise Unsupported('set() of non-string items', n)
+    if name == 'sorted' and 'key' in kwargs and isinstance(args[0], ListV):
+        keyf = kwargs['key']
+        items = list(args[0].items)
+        keys = [fr.apply(keyf, [x], {}, n) for x in items]
+        order_ = list(range(len(items)))
+        for i in range(1, len(order_)):
+            j = i
+            while j > 0 and I.compare('<', keys[order_[j]], keys[order_[j - 1]], n):
+                order_[j], order_[j - 1] = order_[j - 1], order_[j]
+                j -= 1
+        return ListV([items[i] for i in order_])
     if name == 'sorted':
         v = args[0]
         items = v.items if isinstance(v, ListV) else (list(v.d.keys()) if isinstance(v, DictV) else None)
@@ -2291,6 +2336,8 @@ def nd_transpose(v, axes):
 
 def _namedtuple(I, fr, args, kwargs, n):
     tname, fields = args[0], args[1]
+    if isinstance(fields, str):
+        fields = ListV(fields.replace(',', ' ').split())
     if not isinstance(fields, ListV) or not all(isinstance(f, str) for f in fields.items):
         raise Unsupported('namedtuple fields', n)
     names = list(fields.items)
@@ -2309,6 +2356,15 @@ def _namedtuple(I, fr, args, kwargs, n):
         if set(r.attrs) != set(names):
             raise _RaisedExc(Raised('TypeError', n))
         r.attrs['__fields__'] = ListV(list(names))
+
+        def repl(I2, o2, a2, k2):
+            vals2 = {nm: o2.attrs[nm] for nm in names}
+            for kk in k2:
+                if kk not in vals2:
+                    raise _RaisedExc(Raised('ValueError', n))
+            vals2.update(k2)
+            return make(I2, o, [], vals2)
+        r.opaque_methods['_replace'] = repl
         return r
     maker.opaque_methods['__call__'] = make
     return maker
@@ -2696,6 +2752,8 @@ NATIVE = {
 }
 
 GLOBAL_ATTRS = {
+    'numbers.Number': lambda I: Builtin('Number'),
+    'numbers.Real': lambda I: Builtin('Number'),
     'numpy.pi': lambda I: I.D.sym('pi'),
     'numpy.inf': lambda I: I.D.sym('INF'),
     'numpy.double': lambda I: 'np.double',
